@@ -24,17 +24,65 @@ class SwapModel:
         self._classify()
 
     def defs(self, local):
-        return self.pv.var_defs(local)
+        return self.merged_defs(local) if getattr(self, "alias", None) else self.pv.var_defs(local)
+
+    def _aliases(self):
+        """A loop variable handed to an inlined helper by value and assigned back from it (`(x, y) = step(x, y, ..)?`) lives on
+        in the helper's own variable: {helper variable: caller variable}. The pair is one logical variable."""
+        fn, pv = self.fn, self.pv
+        out = {}
+        named = [l for l in range(fn.argc + 1, len(fn.locals)) if fn.locals[l].get("n")]
+        for a in named:
+            if fn.locals[a].get("inl"):
+                continue
+            for (_, _, t) in pv.var_defs(a):
+                t0 = strip(t)
+                if t0[0] == "var" and fn.locals[t0[2]].get("inl") and t0[2] != a:
+                    h = t0[2]
+                    inits = [x for (_, _, x) in pv.var_defs(h) if not any(s_ == ("var", fn.locals[h]["n"], h) for s_ in subterms(x))]
+                    if inits and all(strip(x) == ("var", fn.locals[a]["n"], a) for x in inits):
+                        out[h] = a
+        return out
+
+    def _subst(self, t):
+        """Rewrite helper-side aliases to the caller's variable."""
+        if not self.alias or not isinstance(t, tuple):
+            return t
+        if t and t[0] == "var" and t[2] in self.alias:
+            a = self.alias[t[2]]
+            return ("var", self.fn.locals[a]["n"], a)
+        if t and t[0] == "phi":
+            return ("phi", frozenset(self._subst(x) for x in t[1]))
+        return tuple(self._subst(x) if isinstance(x, tuple) else x for x in t)
+
+    def merged_defs(self, l):
+        """Definitions of a logical variable: its own and those of its helper-side aliases, without the hand-over copies."""
+        out = []
+        hs = [h for h, a in self.alias.items() if a == l]
+        for (b, ln, t) in self.pv.var_defs(l):
+            t0 = strip(t)
+            if t0[0] == "var" and t0[2] in hs:
+                continue
+            out.append((b, ln, self._subst(t)))
+        for h in hs:
+            for (b, ln, t) in self.pv.var_defs(h):
+                t0 = strip(t)
+                if t0 == ("var", self.fn.locals[l]["n"], l):
+                    continue
+                out.append((b, ln, self._subst(t)))
+        return out
 
     def _classify(self):
         fn, pv = self.fn, self.pv
+        self.alias = {}
+        self.alias = self._aliases()
         for l in range(fn.argc + 1, len(fn.locals)):
-            if not fn.locals[l].get("n"):
+            if not fn.locals[l].get("n") or l in self.alias:
                 continue
             ds = [d for d in pv.defs.get(l, []) if d[2] is None]
             if len(ds) < 2:
                 continue
-            terms = [t for (_, _, t) in pv.var_defs(l)]
+            terms = [t for (_, _, t) in self.merged_defs(l)]
             if not terms:
                 continue
             inits = [t for t in terms if not any(s == ("var", fn.locals[l]["n"], l) for s in subterms(t))]
@@ -85,7 +133,7 @@ class SwapModel:
 
     def is_var(self, t, role):
         t = strip(t)
-        return t[0] == "var" and t[2] == self.roles.get(role)
+        return t[0] == "var" and (t[2] == self.roles.get(role) or self.alias.get(t[2], -1) == self.roles.get(role))
 
     def updates(self, role):
         """Non-initial definitions (those mentioning the variable itself or derived from the step)."""
